@@ -30,8 +30,20 @@ pub fn dispatch(op: &str, req: &Value) -> Result<Value, String> {
         return crate::ops_stateres::c08(k, req);
     }
     #[cfg(feature = "stateres")]
+    if op == "c07:toposort" {
+        return crate::ops_stateres::toposort(req);
+    }
+    #[cfg(feature = "stateres")]
     if let Some(k) = op.strip_prefix("c09:") {
         return crate::ops_stateres::c08(k, req);
+    }
+    #[cfg(feature = "signatures")]
+    if let Some(k) = op.strip_prefix("c02:") {
+        return crate::ops_signatures::c02(k, req);
+    }
+    #[cfg(feature = "signatures")]
+    if let Some(k) = op.strip_prefix("c03:") {
+        return crate::ops_signatures::c03(k, req);
     }
     #[cfg(feature = "signatures")]
     if let Some(k) = op.strip_prefix("c05:") {
